@@ -57,6 +57,7 @@ type loopInfo struct {
 	hdrState *State
 	phiVals  map[*ssa.Phi]Value
 	measure  Term
+	modKeys  []string
 }
 
 func (vc *VC) newFrame(fn *ssa.Function, parent *Frame) *Frame {
@@ -120,16 +121,21 @@ func (vc *VC) globalRef(key string) Term {
 	n := sym("ref:" + key)
 	if !vc.declared[n] {
 		vc.declare(n, "Int")
-		vc.assumeAlways("(> " + n + " 0)")
+		vc.declare(vc.famName(allocKey, 0), allocSort)
+		vc.decls = append(vc.decls, "(assert (and (> "+n+" 0) (select "+vc.famName(allocKey, 0)+" "+n+")))")
 	}
 	return n
 }
 
 func (vc *VC) funcRef(fn *ssa.Function) Term {
 	n := sym("fn:" + fn.String())
+	if vc.funcRefs == nil {
+		vc.funcRefs = map[Term]*ssa.Function{}
+	}
+	vc.funcRefs[n] = fn
 	if !vc.declared[n] {
 		vc.declare(n, "Int")
-		vc.assumeAlways("(> " + n + " 0)")
+		vc.decls = append(vc.decls, "(assert (> "+n+" 0))")
 	}
 	return n
 }
@@ -178,16 +184,36 @@ func (vc *VC) fieldPtr(p Value, st types.Type, i int) Value {
 	if _, ok := isStruct(ft); ok {
 		fn := sym("emb:" + fk)
 		vc.declareFun(fn, []string{"Int"}, "Int")
+		vc.embFact(sApp(fn, base), base)
 		return Value{C: []Term{sApp(fn, base)}}
 	}
 	if _, ok := isArray(ft); ok {
 		fn := sym("emb:" + fk)
 		vc.declareFun(fn, []string{"Int"}, "Int")
+		vc.embFact(sApp(fn, base), base)
 		return Value{C: []Term{sApp(fn, base)}}
 	}
 	fn := sym("fld:" + fk)
 	vc.declareFun(fn, []string{"Int"}, "Int")
 	return Value{C: []Term{sApp(fn, base)}, Sh: &Shape{Kind: ShField, Key: fk, Base: base, Typ: ft}}
+}
+
+// an embedded object exists exactly as long as its container: same allocation status on entry
+func (vc *VC) embFact(inner, outer Term) {
+	if vc.inQuant > 0 {
+		return
+	}
+	key := inner
+	if vc.embSeen == nil {
+		vc.embSeen = map[string]bool{}
+	}
+	if vc.embSeen[key] {
+		return
+	}
+	vc.embSeen[key] = true
+	a0 := vc.famName(allocKey, 0)
+	vc.declare(a0, allocSort)
+	vc.decls = append(vc.decls, "(assert "+sEq(sSel(a0, inner), sSel(a0, outer))+")")
 }
 
 func (vc *VC) elemPtr(arr, idx Term, et types.Type) Value {
@@ -255,6 +281,9 @@ func (vc *VC) load(st *State, p Value, t types.Type) Value {
 	if f := vc.typeFacts(out, t); f != "true" {
 		vc.assumeAlways(f)
 	}
+	if f := vc.allocFacts(st, out, t); f != "true" && vc.inQuant == 0 {
+		vc.assume(st, f)
+	}
 	return out
 }
 
@@ -300,11 +329,60 @@ func (vc *VC) store(st *State, p Value, t types.Type, v Value) {
 	}
 }
 
-func (vc *VC) newAlloc(t types.Type, escaped bool) *allocInfo {
+const allocKey = "ghost.alloc"
+const allocSort = "(Array Int Bool)"
+
+// newAlloc: a fresh object. Its reference is a new constant that is not in the set of
+// allocated references (ghost.alloc) and is added to it; every reference read from
+// parameters, memory or call results is assumed to be in the set at that time, so fresh
+// objects alias nothing that existed before (per iteration, when inside a cut loop).
+func (vc *VC) newAlloc(st *State, t types.Type, escaped bool) *allocInfo {
 	vc.nalloc++
-	a := &allocInfo{ref: sInt(int64(-vc.nalloc)), typ: t, escaped: escaped}
+	r := vc.fresh(fmt.Sprintf("new.%d", vc.nalloc), "Int")
+	a := &allocInfo{ref: r, typ: t, escaped: escaped}
+	al := vc.get(st, allocKey, allocSort)
+	vc.assume(st, sAnd(sNot(sSel(al, r)), sNot(sEq(r, "0"))))
+	for _, o := range vc.allocs {
+		// distinct from the objects this activation made earlier (also implied by the set, stated
+		// directly because it is what most proofs need)
+		vc.assume(st, sNot(sEq(r, o.ref)))
+	}
+	vc.set(st, allocKey, allocSort, sStore(al, r, "true"))
 	vc.allocs = append(vc.allocs, a)
 	return a
+}
+
+// allocFacts: references held in a value of type t are nil or allocated in st
+func (vc *VC) allocFacts(st *State, v Value, t types.Type) Term {
+	if st == nil {
+		return "true"
+	}
+	al := vc.get(st, allocKey, allocSort)
+	var fs []Term
+	i := 0
+	var walk func(t types.Type)
+	walk = func(t types.Type) {
+		switch u := t.Underlying().(type) {
+		case *types.Pointer, *types.Map, *types.Chan:
+			fs = append(fs, sOr(sEq(v.C[i], "0"), sSel(al, v.C[i])))
+			i++
+		case *types.Slice:
+			fs = append(fs, sOr(sEq(v.C[i], "0"), sSel(al, v.C[i])))
+			i += 4
+		case *types.Struct:
+			for k := 0; k < u.NumFields(); k++ {
+				walk(u.Field(k).Type())
+			}
+		case *types.Tuple:
+			for k := 0; k < u.Len(); k++ {
+				walk(u.At(k).Type())
+			}
+		default:
+			i += len(comps(t))
+		}
+	}
+	walk(t)
+	return sAnd(fs...)
 }
 
 // ---------------------------------------------------------------------
@@ -493,8 +571,11 @@ func (fr *Frame) findLoops() (back map[[2]*ssa.BasicBlock]bool, err error) {
 		if len(srcLoops) == len(hdrs) {
 			li.pos = srcLoops[i]
 		}
-		if fr.contract != nil {
+		if fr.contract != nil && (fr.parent == nil || fr.contract.Flags["inline"] != "") {
 			li.spec = fr.contract.Loops[li.ordinal]
+		}
+		if li.spec == nil && fr.parent != nil && fr.vc.contract != nil && fr.vc.contract.QLoops != nil {
+			li.spec = fr.vc.contract.QLoops[fmt.Sprintf("%s.%d", fr.fn.Name(), li.ordinal)]
 		}
 	}
 	return back, nil
